@@ -290,7 +290,7 @@ def _native_getitem(budget):
 
 def replay_getitem(model):
     """replay search on the real code for a failed getitem obligation: small-scope differential run"""
-    ok, n, info = _native_getitem(12000)
+    ok, n, info = _native_getitem(10**6)
     if ok:
         return {"confirmed": False, "input": f"{n} small cases tried, none fails"}
     return {"confirmed": True, "input": {k: v for k, v in info.items() if k not in ("observed", "expected")},
@@ -298,10 +298,10 @@ def replay_getitem(model):
 
 
 def bounded_getitem(ses, prop, budget=None):
-    budget = budget or (6000 if ses.tier == "quick" else 60000)
+    budget = budget or 10**6
     ok, n, info = _native_getitem(budget)
     ses.bounded_check(
-        f"{prop}/bounded/getitem-vs-numpy", ok, bound=f"images up to 5x3, rpc 1..n+1, every int/slice key with |bounds| <= n+1, steps 1..3; {n} cases",
+        f"{prop}/bounded/getitem-vs-numpy", ok, bound=f"images up to 5x3 plus 3x24 and 2x9 (narrow / single-column windows), rpc 1..n+1, every int/slice key with |bounds| <= n+1, steps 1..3; {n} cases",
         function="ceos_alos2.array.Array.__getitem__", evaluations=n,
         replay=(lambda m: {"confirmed": True, "input": {k: v for k, v in info.items() if k not in ("observed", "expected")},
                            "observed": info["observed"], "expected": info["expected"]}) if info else None)
@@ -396,10 +396,10 @@ def resolve_limits(ses):
     """bounded stand-ins for the array-chain obligations the verifier could not generate (engine limits)"""
     from native import arraycheck as ac
 
-    budget = 20000 if ses.tier == "quick" else 100000
+    budget = 10**6  # the whole small scope: about 130 000 evaluations, 5 s
     for group in ("getitem", "load"):
         ses.resolve_engine_limits(group, lambda: _native_getitem(budget),
-                                  bound_text="images up to 5x3, records_per_chunk 1..n+1, every int / slice key with |bounds| <= n+1, steps 1..3: "
+                                  bound_text="images up to 5x3 plus 3x24 and 2x9 (narrow and single-column windows of wide lines), records_per_chunk 1..n+1, every int / slice key with |bounds| <= n+1, steps 1..3: "
                                              "values vs NumPy and the open/seek/read events vs the chunk spans, on fresh and on reused Array objects")
     ses.resolve_engine_limits("post_init", lambda: ac.check_post_init(seed=ses.seed),
                               bound_text="random byte ranges for 1..12 rows, records_per_chunk None / 1..n+2: class invariant of Array")
